@@ -306,7 +306,7 @@ func Corrupt(t *rapid.T, frame []byte) ([]byte, string) {
 	f := make([]byte, len(frame))
 	copy(f, frame)
 	n := len(f)
-	kind := rapid.IntRange(0, 13).Draw(t, "corruptKind")
+	kind := rapid.IntRange(0, 14).Draw(t, "corruptKind")
 	note := ""
 	switch kind {
 	case 0: // single bit flip anywhere
@@ -371,6 +371,38 @@ func Corrupt(t *rapid.T, frame []byte) ([]byte, string) {
 		c := ref.CRC24Q(body)
 		f = append(body, byte(c>>16), byte(c>>8), byte(c))
 		note = "16-bit-length+crc"
+	case 14:
+		// CRC bytes that a sloppy comparison takes for the right ones: the same three bytes in another order,
+		// the same hexadecimal digits split differently ("0a bc de" / "ab 0c de"), the same sum, the same xor
+		a, b, c := f[n-3], f[n-2], f[n-1]
+		cands := [][3]byte{{b, a, c}, {a, c, b}, {c, b, a}, {b, c, a}, {a + 1, b - 1, c}, {a ^ 0x5a, b ^ 0x5a, c}, {a ^ 0xff, b ^ 0xff, c ^ 0xff}}
+		digits := fmt.Sprintf("%x%x%x", a, b, c)
+		for l1 := 1; l1 <= 2; l1++ {
+			for l2 := 1; l2 <= 2; l2++ {
+				l3 := len(digits) - l1 - l2
+				if l3 < 1 || l3 > 2 {
+					continue
+				}
+				var t3 [3]byte
+				fmt.Sscanf(digits[:l1], "%x", &t3[0])
+				fmt.Sscanf(digits[l1:l1+l2], "%x", &t3[1])
+				fmt.Sscanf(digits[l1+l2:], "%x", &t3[2])
+				cands = append(cands, t3, t3) // (twice: favoured when it exists)
+			}
+		}
+		var diff [][3]byte
+		for _, x := range cands {
+			if x != [3]byte{a, b, c} {
+				diff = append(diff, x)
+			}
+		}
+		if len(diff) == 0 {
+			f[n-1] ^= 1
+		} else {
+			x := diff[rapid.IntRange(0, len(diff)-1).Draw(t, "lookAlike")]
+			f[n-3], f[n-2], f[n-1] = x[0], x[1], x[2]
+		}
+		note = "look-alike-crc"
 	case 13: // a complete CRC-valid smaller frame stamped over part of the payload / CRC
 		small := enc.Frame(enc.PayloadWithType(rapid.SampledFrom([]int{1005, 1077, 1230, 62}).Draw(t, "stampType"), rapid.IntRange(2, 12).Draw(t, "stampLen"), []byte{0x5a, 0xd3}))
 		if n-3 >= len(small) {
